@@ -550,6 +550,17 @@ func (e *Enc) addProtected(env *CEnv, pe CExpr) error {
 		e.protected[k] = append(e.protected[k], e.def("prot", T(SInt, "(s_arr %s)", xv.S)))
 		return nil
 	}
+	if ix, ok := pe.(*CIndex); ok {
+		if id, ok := ix.X.(*CIdent); ok && e.w.CS.Ghosts[id.Name] != nil {
+			iv, err := env.eval(ix.I)
+			if err != nil {
+				return err
+			}
+			k, _ := e.ghostKey(id.Name)
+			e.protected[k] = append(e.protected[k], e.def("prot", iv.Term))
+			return nil
+		}
+	}
 	xv, err := env.eval(pe)
 	if err != nil {
 		return err
